@@ -307,6 +307,24 @@ func OtherParty(seq []drv.Delivery, s Slot) *protocol.Message {
 	return nil
 }
 
+// OtherPartyBefore is OtherParty restricted to messages that precede the slot's own message in the
+// transcript.  In the alternating two-party protocols a message only exists after its sender has
+// received the peer's previous one, so a deviator can copy nothing that comes later (it would have to
+// open the peer's commitment); in the multi-party protocols a rushing deviator may wait for the others'
+// messages of the same round, and OtherParty is used.
+func OtherPartyBefore(seq []drv.Delivery, s Slot) *protocol.Message {
+	f := &Fault{Slot: s}
+	for _, d := range seq {
+		if matches(f, d) {
+			return nil
+		}
+		if d.M.From != s.From && int(d.M.RoundNumber) == s.Round && d.M.Broadcast == s.Broadcast {
+			return d.M
+		}
+	}
+	return nil
+}
+
 // ContentFault builds a fault that replaces the node at mut.Path of the message content.
 func ContentFault(s Slot, mut Mut, newVal interface{}, mode string) *Fault {
 	f := &Fault{Slot: s, Mut: mut, Mode: mode, Timing: "natural"}
